@@ -574,8 +574,13 @@ def _upgrade_policies(policies, default_policies):
                 # NOTE: a deprecated policy may have been split into
                 # several new ones, each of which takes over its value.
                 policies.pop(rule_default.deprecated_rule.name, None)
-                policies[rule_default.name] = old_policies[
-                    rule_default.deprecated_rule.name]
+                value = old_policies[rule_default.deprecated_rule.name]
+                # The alias suggested by the sample file ("old": "rule:new")
+                # is not an override of the new policy (the same test as
+                # Enforcer._handle_deprecated_rule).
+                alias = 'rule:%s' % rule_default.name
+                if str(policy.RuleDefault(alias, value).check) != alias:
+                    policies[rule_default.name] = value
                 LOG.info('The name of policy %(old_name)s has been upgraded to'
                          '%(new_name)',
                          {'old_name': rule_default.deprecated_rule.name,
